@@ -109,7 +109,7 @@ func (s *Spec) lineClass(l *Line) byte {
 	if l.Kind != 'L' {
 		return 'U'
 	}
-	if s.Ignore != "" && l.F[5] == "skip" {
+	if s.Ignore != "" && (l.F[5] == "skip" || (s.Ignore == "two" && l.F[5] == "drop")) {
 		return 'I'
 	}
 	return 'M'
